@@ -2,6 +2,7 @@ package main
 
 import (
 	"fmt"
+	"go/constant"
 	"go/token"
 	"go/types"
 	"math/big"
@@ -1023,6 +1024,33 @@ func (a *ivAnalyzer) resolveAddr(addr ssa.Value, e env) (ssa.Value, []string, bo
 	case *ssa.Alloc:
 		if _, tracked := e[a.cell(x, "#")]; !tracked {
 			return nil, nil, false
+		}
+		return x, []string{""}, true
+	case *ssa.Global:
+		// a package-level table that is never stored to: its cells are the constants of its literal
+		if _, tracked := e[a.cell(x, "#")]; !tracked {
+			leaves, ok := a.p.globalLeaves(x)
+			if !ok {
+				return nil, nil, false
+			}
+			e[a.cell(x, "#")] = iv(1, 1)
+			for path, cv := range leaves {
+				switch cv.Kind() {
+				case constant.String:
+					n := int64(len(constant.StringVal(cv)))
+					e[a.cell(x, path)] = iv(n, n)
+				case constant.Int:
+					if bi, okb := new(big.Int).SetString(cv.ExactString(), 10); okb {
+						e[a.cell(x, path)] = ivb(bi, bi)
+					}
+				case constant.Bool:
+					if constant.BoolVal(cv) {
+						e[a.cell(x, path)] = iv(1, 1)
+					} else {
+						e[a.cell(x, path)] = iv(0, 0)
+					}
+				}
+			}
 		}
 		return x, []string{""}, true
 	case *ssa.FieldAddr:
